@@ -16,6 +16,8 @@
       real `finalize`);
     * `water_clean` — a water ends with its original names plus H1 and H2, once each, no `LP*`;
     * `cleanup_spec` — the doubled carboxylic proton is removed exactly when both are present;
+    * `his_state_clean` — `HIS.set_state`, the last change of an atom set in a run: one ring proton
+      dropped from a neutral histidine for every flag combination, none from a doubly protonated one;
     * `written_or_reported` — whatever the force-field map, the atoms found (printed) and the
       atoms reported missing are together a permutation of all atoms of all residues.
     * `repair_complete`, `repair_reports`, `repair_keeps_known`, `repair_nodup` — one residue through
@@ -82,6 +84,23 @@ theorem cleanup_spec (s : Names) (first second : Str) (hs : s.Nodup) (hne : firs
     ¬ (first ∈ cleanup s first second ∧ second ∈ cleanup s first second) ∧
     (∀ n, n ≠ first → (n ∈ cleanup s first second ↔ n ∈ s)) ∧ (cleanup s first second).Nodup :=
   cleanup_spec_core s first second hs hne
+
+/-- **Histidine naming** (`HIS.set_state`, the last change of an atom set in a run): a histidine
+that reaches it with both ring protons ends — for every combination of the donor / acceptor flags
+the optimisation left on ND1 and NE2 — with exactly one of HD1 / HE2 when it is neutral and with both
+when it is doubly protonated by patch or name; every other atom is untouched, nothing is doubled, and
+the state name (HID / HIE / HIP) is the one its atoms spell. -/
+theorem his_state_clean (hip nd1D nd1A ne2D ne2A : Bool) (s : Names) (hs : s.Nodup)
+    (h1 : str "HD1" ∈ s) (h2 : str "HE2" ∈ s) :
+    (hisSetState hip nd1D nd1A ne2D ne2A s).Nodup ∧
+    (∀ m, m ≠ str "HD1" → m ≠ str "HE2" → (m ∈ hisSetState hip nd1D nd1A ne2D ne2A s ↔ m ∈ s)) ∧
+    (hip = true → hisSetState hip nd1D nd1A ne2D ne2A s = s ∧ hisName (hisSetState hip nd1D nd1A ne2D ne2A s) = some (str "HIP")) ∧
+    (hip = false →
+      ((str "HD1" ∈ hisSetState hip nd1D nd1A ne2D ne2A s ∧ str "HE2" ∉ hisSetState hip nd1D nd1A ne2D ne2A s ∧
+          hisName (hisSetState hip nd1D nd1A ne2D ne2A s) = some (str "HID")) ∨
+       (str "HE2" ∈ hisSetState hip nd1D nd1A ne2D ne2A s ∧ str "HD1" ∉ hisSetState hip nd1D nd1A ne2D ne2A s ∧
+          hisName (hisSetState hip nd1D nd1A ne2D ne2A s) = some (str "HIE")))) :=
+  his_state_clean_core hip nd1D nd1A ne2D ne2A s hs h1 h2
 
 /-- every atom of the final model is written (found) or reported (missing) — exactly once -/
 theorem written_or_reported (m : P2P.FF.FFMap) (rs : List P2P.FF.ARes) :
